@@ -54,6 +54,7 @@ func TestC15(t *testing.T) {
 	c15OtherUniverses(t, rec)
 	c15EnvFaults(t, rec)
 	c15OracleFeed(t, rec)
+	c15EnvFaultsOther(t, rec)
 	rec.SetExhaustive(false)
 	rec.Floor("crash_points_injected", 200)
 	rec.Floor("explored_blocks_begin", 2)
@@ -114,12 +115,22 @@ func c15ApplyFault(r *cdpRunner, rnd *rand.Rand) string {
 		r.env("fault", "price zero "+as.Denom, func() { u.setPrice(as.Denom, 0, true) })
 		return "price-zero"
 	case 3, 4: // a module account drained (fully, or down to one coin)
-		mod := cdpModules[rnd.Intn(len(cdpModules))]
-		d := cdpDenoms[rnd.Intn(len(cdpDenoms))]
-		bal := c.Bal(c.ModAddr(mod), d)
-		if !bal.IsPositive() {
+		// an account that actually holds something
+		type held struct{ mod, d string }
+		var cands []held
+		for _, mm := range cdpModules {
+			for _, dd := range cdpDenoms {
+				if c.Bal(c.ModAddr(mm), dd).IsPositive() {
+					cands = append(cands, held{mm, dd})
+				}
+			}
+		}
+		if len(cands) == 0 {
 			return "drain-nothing-to-drain"
 		}
+		pick := cands[rnd.Intn(len(cands))]
+		mod, d := pick.mod, pick.d
+		bal := c.Bal(c.ModAddr(mod), d)
 		amt := bal
 		if k == 4 && bal.GT(sdk.OneInt()) {
 			amt = bal.SubRaw(1)
